@@ -136,14 +136,21 @@ def u_actions(c):
                 note=f"raised {exc_name(r)}: {r!r} context={context} string={text} ||")
 
 
-@unit("Evaluator.dispatch", ["C18"], [S + ":Evaluator.__call__", S + ":make_symbol", OP + ":Location.syntax_error"], replay=_replay_parse)
+@unit("Evaluator.dispatch", ["C18"], [S + ":Evaluator.__call__", S + ":make_symbol", OP + ":Location.syntax_error", S + ":parse"], replay=_replay_parse)
 def u_dispatch(c):
     """Evaluator.__call__: a Token is a SYMBOL; an unknown operator shape raises SyntaxError carrying the offending
     position (offset = start + 1); an empty parse (None) must be refused with a syntax error, not an assertion."""
     it = Interp(c)
     ev = it.get_global(S, "evaluate")
-    k = c.choose(4, "case")
+    k = c.choose(5, "case")
     Token = it.get_global(OP, "Token")
+    if k == 4:
+        # the empty / blank string through the real parse(): a syntax error WITH the offending position, like every other one
+        src = ["", "  ", "\n"][c.choose(3, "blank")]
+        st, r = run(it, it.get_global(S, "parse"), [src])
+        c.prove("blank-string/SyntaxError-with-position", st == "raise" and isinstance(r, SyntaxError) and getattr(r, "offset", None) == 1
+                and getattr(r, "text", None) == src, note=f"raised {exc_name(r) if st == 'raise' else None} offset={getattr(r, 'offset', None)!r} string={src} ||")
+        return
     if k == 0:
         st, r = run(it, ev, [None])
         c.prove("empty-selector/refused-with-SyntaxError", st == "raise" and isinstance(r, SyntaxError), note=f"raised {exc_name(r) if st == 'raise' else None} string= ||")
@@ -300,8 +307,10 @@ def u_probe_construction(c):
     st, r = run(it, it.getattr(prb, "_make_rule"), [sel, ptype])
     want_immediate = ptype != "total" and (focus or ptype == "immediate")
     bad_tags = not (not tags or tags == {1} or tags == {1, 2})
-    if overridable and not want_immediate:
-        c.prove("overridable/needs-immediate-focus", st == "raise")
+    if overridable and (not focus or ptype == "total"):
+        # from the property: no focus where overriding requires one is refused at construction (whatever probe_type says), rather
+        # than accepted and silently never applied
+        c.prove("overridable/needs-immediate-focus", st == "raise", note=f"tags={sorted(tags)} probe_type={ptype}: {st}")
     elif bad_tags:
         c.prove("focus-pattern/refused-with-ValueError", st == "raise" and isinstance(r, ValueError))
     else:
@@ -355,6 +364,8 @@ EQUIV = [
     ("f(A, $xD)", "f(A, * as xD)", None),
     ("f(A)=cc", "f(A, #value=cc)", None),
     ("f(A) > g(B) > X", "f(A, g(B, !X))", "x"),
+    ("f(a~g(k=1)) > X", "f(a ~ g( k = 1 )) > X", "x"),
+    ("f(a=g(1, k=2))", "f(a = g(1,k=2))", None),
     ("(f() as r)=cc", "f(!#value as r, #value=cc)", "#value"),
     ("(f(A) as r)=cc", "f(A, !#value as r, #value=cc)", "#value"),
 ]
